@@ -21,7 +21,11 @@ RULE = ("(a) self-replacement P→P on planted structures (all cell kinds, poses
         "(within 4·atol); (c) replace ALL occurrences by a pattern that does not contain the search pattern, then search "
         "again; (d, thorough) self-replacement on the repository's MOF files. Non-trivial = at least one match was "
         "replaced and (a) a term touches a matched atom / (b) the first replacement changed an element / (c) the first "
-        "search found something.")
+        "search found something. Tolerances: default-size (0.02–0.1) with copies perturbed ≤ atol/8, and in ~45 % of the "
+        "cases of every stream a NON-default tolerance (0.1, 0.2, 0.01) with the planted copies distorted by up to 0.6·atol "
+        "(0.35·atol for multi-atom A→B→A), for 0.01 also beyond the tolerance; every independent search of the oracles "
+        "uses the case's own tolerance, and the number of replaced sites must equal what a plain search with that "
+        "tolerance reports.")
 
 MOF = os.path.join(core.REPO, "")
 
@@ -70,7 +74,7 @@ def oracle_self(sj, out):
 
 
 def self_case(rng, tier):
-    base = G.make_case(rng, tier, rp_kind="keep_all+far", replace_all=False)   # structure + search pattern; Rp unused
+    base = G.make_case(rng, tier, hints=(None, None, None), rp_kind="keep_all+far", replace_all=False)   # structure + search pattern; Rp unused
     sj = G.add_terms(rng, base["s"], density=rng.choice([0.5, 1.0, 1.5]))
     case = {"op": "c08-self", "s": sj, "p": base["p"], "atol": base["atol"], "seed": base["seed"], "info": base["info"]}
     if rng.random() < 0.4:
@@ -110,7 +114,7 @@ def ring_case(rng, tier):
     terms over the same atom SET) and the pattern carries one of those terms"""
     names = [p for p in findlib.PATTERNS if len(findlib.PATTERNS[p][0]) >= 3]
     for attempt in range(20):
-        base = G.make_case(rng, tier, pname=rng.choice(names), rp_kind="keep_all+far", replace_all=False)
+        base = G.make_case(rng, tier, hints=(None, None, None), pname=rng.choice(names), rp_kind="keep_all+far", replace_all=False)
         sj = G.add_terms(rng, base["s"], density=rng.choice([0.5, 1.0]))
         pre = findlib.run_replace(sj, base["p"], base["p"], atol=base["atol"], seed=base["seed"])
         used = pre.get("used") or []
@@ -171,7 +175,8 @@ def multiset(j):
 def site_case(rng, tier):
     single = rng.random() < 0.5
     pname = "single" if single else rng.choice([p for p in findlib.PATTERNS if p != "single"])
-    base = G.make_case(rng, tier, pname=pname, rp_kind="subst", replace_all=False)
+    # multi-atom sites: moderate distortion only, so that the tolerance stays "large enough to match" in BOTH directions
+    base = G.make_case(rng, tier, hints=(None, None, None), pname=pname, rp_kind="subst", replace_all=False, fmax=0.35)
     return {"op": "c08-site", "s": base["s"], "a": base["p"], "b": base["r"], "atol": base["atol"], "seed": base["seed"],
             "single": single, "info": base["info"]}
 
@@ -195,7 +200,17 @@ def oracle_site(case, o1, o2):
     if any(elem_of(sj, i) in belems for i in range(len(sj["atoms"]))):
         return None                     # outside the property's quantifier (structure already contains B)
     cell = C5.cell_of(sj)
+    # every site that a plain search with the same tolerance reports was substituted
+    lo, hi = C5.occurrence_bracket({"s": sj, "p": case["a"], "atol": case["atol"], "seed": case["seed"]})
+    if not (len(lo) <= o1["n"] <= len(hi)):
+        return ("a search reports %d site(s) with 0.7·atol and %d with 1.4·atol (atol=%g); A→B (same atol) replaced %d"
+                % (len(lo), len(hi), case["atol"], o1["n"]))
     if o2["n"] != o1["n"]:
+        if not case["single"] and o2["n"] < o1["n"] and (case["info"].get("distorted", "none") != "none" or len(lo) < o1["n"]):
+            # purposely distorted multi-atom copies, or a replaced site that is not a CLEAR occurrence (not reported with
+            # 0.7·atol, e.g. a near-miss decoy that just passes): after A→B the substituted atom sits at its ideal place, the others
+            # do not; the tolerance is then not "large enough to match" on the way back — outside the quantifier
+            return "skip"
         return "A→B replaced %d sites, B→A found %d" % (o1["n"], o2["n"])
     if case["single"]:
         tol = 1e-9
@@ -211,7 +226,7 @@ def oracle_site(case, o1, o2):
 # ------------------------------------------------------------------ (c) nothing left after replacing all
 
 def gone_case(rng, tier):
-    base = G.make_case(rng, tier, rp_kind=rng.choice(["all_new", "subst", "keep_some+new"]), replace_all=False)
+    base = G.make_case(rng, tier, hints=(None, None, None), rp_kind=rng.choice(["all_new", "subst", "keep_some+new"]), replace_all=False)
     base["op"] = "c08-gone"
     return base
 
@@ -237,6 +252,10 @@ def contains_pattern(case):
 def oracle_gone(case, o1, found2):
     if "ok" not in o1:
         return "replacement raised %s" % o1.get("err")
+    lo, hi = C5.occurrence_bracket(case)
+    if not (len(lo) <= o1["n"] <= len(hi)):
+        return ("a search reports %d occurrence(s) with 0.7·atol and %d with 1.4·atol (atol=%g); the replacement (same "
+                "atol) replaced %d" % (len(lo), len(hi), case["atol"], o1["n"]))
     if contains_pattern(case):
         return None
     if found2:
@@ -314,6 +333,8 @@ def do_self(ctx, case, ops):
     ctx.case(case, nontrivial=bool(used) and touched)
     ctx.count("self")
     ctx.count("self:cell:" + case["info"]["cell"])
+    ctx.count("atol:%g" % case["atol"])
+    ctx.count("distorted:" + case["info"].get("distorted", "none"))
     ctx.count("self:pattern:" + case["info"]["pattern"])
     ctx.count("self:matches:%d" % min(len(used), 4))
     if bad:
@@ -326,9 +347,14 @@ def do_self(ctx, case, ops):
 def do_site(ctx, case, ops):
     o1, o2 = run_site(case)
     bad = oracle_site(case, o1, o2)
+    if bad == "skip":
+        ctx.count("site:skipped (distorted / borderline copies no longer match on the way back)")
+        bad = None
     ctx.case(case, nontrivial=("ok" in o1 and o1.get("n", 0) > 0))
     ctx.count("site:single" if case["single"] else "site:multi")
     ctx.count("site:cell:" + case["info"]["cell"])
+    ctx.count("atol:%g" % case["atol"])
+    ctx.count("distorted:" + case["info"].get("distorted", "none"))
     if bad:
         ctx.fail(bad, case, observed={"n1": o1.get("n"), "n2": (o2 or {}).get("n")},
                  required="A→B→A restores the multiset of (element, position mod lattice)", tags=["c08", "site"])
@@ -344,6 +370,8 @@ def do_gone(ctx, case, ops):
     ctx.case(case, nontrivial=("ok" in o1 and o1.get("n", 0) > 0 and not contains_pattern(case)))
     ctx.count("gone")
     ctx.count("gone:rp:" + case["info"]["rp"])
+    ctx.count("atol:%g" % case["atol"])
+    ctx.count("distorted:" + case["info"].get("distorted", "none"))
     if bad:
         ctx.fail(bad, case, observed={"n": o1.get("n"), "found_again": found2}, required="second search finds nothing",
                  tags=["c08", "gone"])
@@ -414,7 +442,7 @@ def replay(ctx, rec):
         return oracle_self(case["s"], run_self(case)) is None
     if op == "c08-site":
         o1, o2 = run_site(case)
-        return oracle_site(case, o1, o2) is None
+        return oracle_site(case, o1, o2) in (None, "skip")
     if op == "c08-gone":
         o1, f2 = run_gone(case)
         return oracle_gone(case, o1, f2) is None
